@@ -2,7 +2,7 @@
 
 PROPS = {
     "C09": {
-        "units": ["U1"],
+        "units": ["U1", "U4"],
         "level": "proof",
         "witness": [
             (r"read_varlong|write_varlong", "varlong"),
@@ -25,7 +25,7 @@ PROPS = {
         ],
     },
     "C04": {
-        "units": ["U1"],
+        "units": ["U1", "U4", "U3"],
         "level": "proof",
         "witness": [
             (r"alloc", "alloc"),
@@ -40,5 +40,80 @@ PROPS = {
             "tokio AsyncReadExt/AsyncWriteExt on Cursor<Vec<u8>> / Vec<u8> behave like the verified Reader / Vec<u8> models of the prelude",
             "Take::read_to_end commits memory proportional to the bytes it actually reads",
         ],
+    },
+    "C01": {
+        "units": ["U3", "U4", "U2"],
+        "kani": ["U2b"],
+        "level": "proof",
+        "witness": [(r"listen", "login_identity")],
+        "sweep": ["login_identity"],
+        "explanation": "Connection::listen is extracted whole and verified against the reference automaton of units/U3/spec.rs: Login Success is accepted "
+                       "only when the RSA-decrypted verify token equals the token of this connection's Encryption Request and the identity is the one "
+                       "returned by the authentication oracle (asked with the decrypted shared secret and the server public key) or the one inside an "
+                       "accepted cookie; filter/select oracles and the AuthCookie are fed that identity; the cipher key equals the shared secret. "
+                       "crypto::verify_token is proved by Kani on its extracted text.",
+        "not_covered": ["RSA/PKCS#1 internals (rsa_decrypt is an uninterpreted function)", "verify_token for slices longer than 40 bytes (Kani bound; the comparison is length-first)"],
+        "assumptions": ["adapters, RSA decryption, HMAC, JSON (de)serialisation are deterministic uninterpreted functions of their arguments",
+                        "packet decoding is a deterministic function of the frame body (decode_of)",
+                        "suspension points erased (R1); tokio::select! modelled as nondeterministic choice of the winning arm (R8)"],
+    },
+    "C02": {
+        "units": ["U3", "U2", "U4"],
+        "level": "proof",
+        "witness": [(r"unparseable|cookie", "cookie_unparseable"), (r".", "cookie_matrix")],
+        "sweep": ["cookie_unparseable", "cookie_matrix"],
+        "explanation": "The automaton accepts an Encryption Request only with should_authenticate == !cookie_accept(..), where cookie_accept is the "
+                       "conjunction stated by the property (transfer intent, secret configured, HMAC tag correct under that secret, same client IP, "
+                       "timestamp + expiry >= the clock value that was read, parseable). cookie::verify is verified verbatim against "
+                       "tag == hmac(secret, body) with hmac uninterpreted, which covers every bit flip, truncation and foreign secret.",
+        "not_covered": ["cryptographic strength of HMAC-SHA256"],
+        "assumptions": ["hmac crate: new_from_slice accepts any key length; verify_slice is Ok iff the full tag matches",
+                        "cookie timestamps and the configured expiry are below 2^63 (no u64 overflow in timestamp + expiry)"],
+    },
+    "C03": {
+        "units": ["U3", "U4"],
+        "level": "proof",
+        "witness": [(r"locale|no_target", "locale"), (r".", "routing")],
+        "sweep": ["locale", "routing"],
+        "explanation": "routing(cfg, d) = select_oracle(.., filter_oracle(.., discover_oracle())) composes the adapter oracles exactly as the property "
+                       "states; the automaton accepts a Transfer only as last event with the chosen target's ip text and port, and a no-target "
+                       "Disconnect only with localize_oracle(Some(client locale), \"disconnect_no_target\").",
+        "not_covered": ["FixedLocalizationAdapter's region -> language -> default fallback chain (match_indices/HashMap code, outside Verus)"],
+        "assumptions": ["IpAddr::to_string is the canonical text (ip_text, uninterpreted)"],
+    },
+    "C06": {
+        "units": ["U3", "U4"],
+        "level": "proof",
+        "witness": [(r".", "order")],
+        "sweep": ["order"],
+        "explanation": "The reference automaton is the protocol grammar of the property: every event trace listen can produce (for all client bytes, "
+                       "adapter results, timer firings) must be accepted; any packet sent out of order, a reply after an unexpected id, or an event "
+                       "after Transfer/Disconnect drives it to Bad.",
+        "not_covered": [],
+        "assumptions": ["match_packet! is expanded from the macro definition in connection.rs by a small macro_rules interpreter (R4)"],
+    },
+    "C07": {
+        "units": ["U4", "U3"],
+        "level": "proof",
+        "witness": [(r".", "keepalive")],
+        "sweep": ["keepalive"],
+        "explanation": "State logic only: keep_alive_id == outstanding(event log) is a verified representation invariant of receive_packet, "
+                       "handle_keep_alive and keep_alive; the tick branch sends the localized timeout Disconnect and fails iff an id is outstanding, else "
+                       "sends exactly one Keep Alive; receive_packet(false) never sends; handle_keep_alive clears iff the ids are equal.",
+        "not_covered": ["'at least every 16 seconds', 'not dropped however long routing takes', 'Transfer as soon as routing completes': wall-clock and "
+                        "scheduler facts of tokio Interval/select!, outside sequential contracts"],
+        "assumptions": ["Interval::tick completes when a period elapsed (not modelled)"],
+    },
+    "C10": {
+        "units": ["U3", "U2", "U4"],
+        "level": "proof",
+        "witness": [(r".", "cookies")],
+        "sweep": ["cookies"],
+        "explanation": "The automaton accepts the auth StoreCookie only for a fresh authentication with a secret, before the Transfer, with payload == "
+                       "hmac(secret, json) ++ json where json prints exactly (client address, authenticated name, uuid, properties, chosen target id, some "
+                       "timestamp); the session StoreCookie exactly when the client presented none, with the handshake's host and port. cookie::sign is "
+                       "verified verbatim; lemma_sign_then_verify and lemma_c10_reaccept prove acceptance on the next transfer.",
+        "not_covered": ["that the recorded timestamp is the current time (the clock read is inside a struct literal; only its presence is decided)"],
+        "assumptions": ["serde_json: parsing what was printed yields a cookie with the same content (used only by lemma_c10_reaccept)"],
     },
 }
